@@ -61,6 +61,9 @@ var slots = []slot{
 	{"ll", "[[E]]", []string{"", "[[A], [B]]"}},
 	{"i", "Int", []string{"", "0", "-5"}},
 	{"nn", "[Int!]", []string{"", "[3]"}},
+	// an enum whose internal values are strings spelled like the names of OTHER values
+	{"se", "SE", []string{"", "SOLID", "GAS"}},
+	{"sl", "[SE]", []string{"", "[LIQUID, SOLID]"}},
 }
 
 type variant struct {
@@ -81,6 +84,7 @@ func buildVariant(x *explore.X) *variant {
 	g := gen.Kitchen()
 	v := &variant{g: g}
 	q := g.Types["Query"]
+	g.Add(&gen.TypeDef{Kind: gen.KEnum, Name: "SE", Values: []*gen.EnumVal{{Name: "SOLID", Internal: "LIQUID"}, {Name: "LIQUID", Internal: "GAS"}, {Name: "GAS", Internal: "SOLID"}}})
 	gf := &gen.FieldDef{Name: "g", Type: gen.Named("String")}
 	for _, s := range slots {
 		a := &gen.ArgDef{Name: s.name, Type: gen.ParseType(s.typ)}
@@ -545,7 +549,7 @@ func execute(x *explore.X) outcome {
 
 func run(c *core.Ctx) {
 	dev := c.Pick(3, 4)
-	c.R.Rule = "case = kitchen schema + <= k deviations among: a default literal for each of 11 argument kinds (enum, list, input object with nested object and escaped string, strings with quotes / backslashes / newline, float from int literal, booleans incl. false, ID, custom scalar, list of lists of enums, 0 and negative ints, list of non-null), input-field defaults (list, object), deprecated field / first-sorting field / enum value, deep wrappers, types appended after construction (1 or 2, both orders, transitively reachable ones); full introspection + __type queries compared with M-intro; non-trivial = at least one deviation"
+	c.R.Rule = "case = kitchen schema + <= k deviations among: a default literal for each of 13 argument kinds (enum, an enum whose internal values are spelled like the names of its other values, alone and in a list, list, input object with nested object and escaped string, strings with quotes / backslashes / newline, float from int literal, booleans incl. false, ID, custom scalar, list of lists of enums, 0 and negative ints, list of non-null), input-field defaults (list, object), deprecated field / first-sorting field / enum value, deep wrappers, types appended after construction (1 or 2, both orders, transitively reachable ones); full introspection + __type queries compared with M-intro; non-trivial = at least one deviation"
 	c.R.Assumptions = []string{"M-intro: description derived from the generator's schema value; lists compared as multisets keyed by name (each once); a default value is judged by parsing the reported literal with M-syntax and coercing it with M-coerce", "Go toolchain"}
 	c.R.Bounds["deviations"] = dev
 	e := c.Explorer(dev)
